@@ -389,10 +389,12 @@ class H:
 
     # ---- driver --------------------------------------------------------------------------------------------
     async def run(self, nops: int):
-        ops = [(self.op_spawn, 5), (self.op_finish, 5), (lambda: self.op_finish(fail=True), 1), (self.op_cancel, 2), (self.op_cancel_group, 2), (self.op_flush, 3), (self.op_lock_probe, 1), (self.op_release_callback, 3), (self.op_stop, 2), (self.op_close_now, 1)]
+        ops = [(self.op_spawn, 5), (self.op_finish, 5), (lambda: self.op_finish(fail=True), 1), (self.op_cancel, 2), (self.op_cancel_group, 2), (self.op_flush, 3), (self.op_lock_probe, 1), (self.op_release_callback, 3), (self.op_stop, 2), (self.op_close_now, 2)]
         bag = [f for f, w in ops for _ in range(w)]
+        closing_bag = [self.op_finish] * 4 + [self.op_release_callback] * 4 + [self.op_cancel, self.op_spawn]
         for k in range(nops):
-            op = self.rnd.choice(bag)
+            # once gather_and_close() is under way only finishing tasks / returning callbacks / cancelling move things on
+            op = self.rnd.choice(closing_bag if self.closing is not None and not self.closing.done() else bag)
             try:
                 await op()
             except Exception as e:
